@@ -56,10 +56,20 @@ type fnSpec struct {
 	// up the Lean parameter list, so that an edit that drops or reorders a read leaves the signature (and with it
 	// the driver and the other properties' builds) alone; a read outside the list fails loudly.
 	views map[string]string
+	// globals: package-level variables the function may read (space separated); each becomes a leading parameter
+	// `g_<name>` of the Lean function (its value at the time of the call; written only by `init`)
+	globals string
+	// writes: a package-level variable (also listed in `globals`) the function assigns; a function without results
+	// (`init`) then returns the variable's final value
+	writes string
+	// round2: second-round conventions (set for every entry of whitelist2): non-constant shift counts go through
+	// `shl` / `shr` (same value as `<<<` / `>>>`, but executable for the astronomically large counts a converted
+	// negative number yields: Lean's `<<<` on BitVec would first build 2^n)
+	round2 bool
 }
 
 // groups in file order; a function may only call functions of its own or an earlier group
-var groups = []string{"", "Tak", "Over", "Move", "Sym", "AI", "FPA", "Eval"}
+var groups = []string{"", "Tak", "Over", "Move", "Sym", "AI", "FPA", "Eval", "Pos", "Road", "MoveGen", "SymMove", "Prove"}
 
 var whitelist = []fnSpec{
 	{dir: "bitboard", file: "bits.go", name: "Precompute", lean: "precompute"},
@@ -118,6 +128,44 @@ var whitelist = []fnSpec{
 	{dir: "ai", file: "evaluate.go", name: "EvaluateWinner", lean: "evaluateWinner", group: "Eval", views: map[string]string{"p": "Black Caps Standing White blackCaps blackStones cfg.BlackWinsTies cfg.c.Mask hasRoad whiteCaps whiteStones move"}},
 }
 
+// second round (slices.go): functions that read / build slices
+var whitelist2 = []fnSpec{
+	// group Pos: tak/game.go Top, At; tak/hash.go hashAt, Equal
+	{dir: "tak", file: "game.go", recv: "Position", name: "Top", lean: "positionTop", group: "Pos", views: map[string]string{"p": "Black Caps Size Standing White"}},
+	{dir: "tak", file: "game.go", recv: "Position", name: "At", lean: "positionAt", group: "Pos", views: map[string]string{"p": "Black Caps Height Size Stacks Standing White"}},
+	{dir: "tak", file: "hash.go", recv: "Position", name: "hashAt", lean: "positionHashAt", group: "Pos", globals: "basis", views: map[string]string{"p": "Height Stacks"}},
+	{dir: "tak", file: "hash.go", recv: "Position", name: "Equal", lean: "positionEqual", group: "Pos", views: map[string]string{"p": "Black Caps Height Stacks Standing White cfg.Size hash move", "rhs": "Black Caps Height Stacks Standing White cfg.Size hash move"}},
+
+	// group Road: tak/game.go hasRoad, bitboard.FloodGroups
+	{dir: "tak", file: "game.go", recv: "Position", name: "hasRoad", lean: "positionHasRoad", group: "Road", views: map[string]string{"p": "analysis.BlackGroups analysis.WhiteGroups cfg.c.B cfg.c.L cfg.c.R cfg.c.T move"}},
+	{dir: "bitboard", file: "bits.go", name: "FloodGroups", lean: "floodGroups", group: "Road", fuel: []string{"66"}},
+	{dir: "tak", file: "game.go", recv: "Position", name: "WinDetails", lean: "positionWinDetails", group: "Road", views: map[string]string{"p": "Black Caps Standing White blackCaps blackStones cfg.BlackWinsTies cfg.c.Mask hasRoad whiteCaps whiteStones"}},
+
+	// group MoveGen: tak/slide.go MkSlides, tak/move.go calculateSlides, Position.AllMoves
+	{dir: "tak", file: "slide.go", name: "MkSlides", lean: "mkSlides", group: "MoveGen"},
+	{dir: "tak", file: "move.go", name: "calculateSlides", lean: "calculateSlides", group: "MoveGen", globals: "slides"},
+	{dir: "tak", file: "move.go", name: "init", lean: "slidesInit", group: "MoveGen", globals: "slides", writes: "slides"},
+	{dir: "tak", file: "move.go", recv: "Position", name: "AllMoves", lean: "positionAllMoves", group: "MoveGen", globals: "slides",
+		views: map[string]string{"p": "Black Height White blackCaps cfg.Size move whiteCaps"}},
+
+	// group SymMove: symmetry.TransformMove (a function-typed parameter, panicking callees Dest / MkSlides)
+	{dir: "symmetry", file: "canonical.go", name: "TransformMove", lean: "transformMove", group: "SymMove"},
+
+	// group Prove: prove/dfpn.go terminalBounds, prove/pn.go flag helpers of `node` (int8 bit tests)
+	{dir: "prove", file: "dfpn.go", recv: "DFPNSolver", name: "terminalBounds", lean: "terminalBounds", group: "Prove", views: map[string]string{"d": "attacker", "g": "move"}},
+	{dir: "prove", file: "pn.go", recv: "node", name: "expanded", lean: "nodeExpanded", group: "Prove", views: map[string]string{"n": "flags"}},
+	{dir: "prove", file: "pn.go", recv: "node", name: "andNode", lean: "nodeAndNode", group: "Prove", views: map[string]string{"n": "flags"}},
+	{dir: "prove", file: "pn.go", recv: "node", name: "proof", lean: "nodeProof", group: "Prove", views: map[string]string{"n": "delta flags phi"}},
+	{dir: "prove", file: "pn.go", recv: "node", name: "disproof", lean: "nodeDisproof", group: "Prove", views: map[string]string{"n": "delta flags phi"}},
+}
+
+func init() {
+	for i := range whitelist2 {
+		whitelist2[i].round2 = true
+	}
+	whitelist = append(whitelist, whitelist2...)
+}
+
 // accessors: methods of abstract (non-translatable) parameters that may be read like a field.
 // The corresponding `fn.*` op passes the real method's value, so a changed accessor shows up there.
 // A non-whitelisted method listed here whose result is a tuple becomes one parameter of product type.
@@ -158,6 +206,12 @@ def trailingZeros64_loop : Nat → Nat → BitVec 64 → Nat
   | n+1, k, x => if x.getLsbD 0 then k else trailingZeros64_loop n (k+1) (x >>> 1)
 def trailingZeros64 (x : BitVec 64) : Nat := if x == 0#64 then 64 else trailingZeros64_loop 64 0 x
 
+/-- Go's x << n for a count that may be astronomically large (uint(v) of a negative v): the value of x <<< n
+(Proofs/GenSlices.lean shl_eq), computed without building 2^n -/
+def shl {w : Nat} (x : BitVec w) (n : Nat) : BitVec w := if n < w then x <<< n else 0#w
+/-- Go's x >> n, likewise (shr_eq) -/
+def shr {w : Nat} (x : BitVec w) (n : Nat) : BitVec w := if n < w then x >>> n else 0#w
+
 `
 
 type tclass int
@@ -169,6 +223,8 @@ const (
 	tBool
 	tStruct
 	tTuple
+	tArr  // slice or array: Lean `Array`; elems[0] = element type, alen = static length (-1: slice)
+	tFunc // function value: elems = parameter types ..., result type
 	tBad
 )
 
@@ -177,6 +233,7 @@ type ltype struct {
 	width int // BitVec width; for tInt: 0 = unbounded, 8/16/32 = wrapped
 	sname string
 	elems []ltype
+	alen  int
 }
 
 func (t ltype) lean() string {
@@ -197,16 +254,30 @@ func (t ltype) lean() string {
 			s = append(s, e.lean())
 		}
 		return strings.Join(s, " × ")
+	case tArr:
+		return "Array (" + t.elems[0].lean() + ")"
+	case tFunc:
+		var s []string
+		for _, e := range t.elems {
+			if e.c == tTuple || e.c == tFunc {
+				s = append(s, "("+e.lean()+")")
+			} else {
+				s = append(s, e.lean())
+			}
+		}
+		return strings.Join(s, " → ")
 	}
 	return "?"
 }
 
 // fnInfo is what callers need to know about an already translated function.
 type fnInfo struct {
-	spec   fnSpec
-	group  int
-	opt    bool
-	params []paramInfo
+	spec     fnSpec
+	group    int
+	opt      bool
+	params   []paramInfo
+	globals  []string // package-level variables it reads (leading parameters g_<name>)
+	variadic bool
 }
 
 type viewInfo struct {
@@ -226,8 +297,9 @@ type absParam struct {
 }
 
 type closureInfo struct {
-	lean  string
-	outer []string
+	lean    string
+	outer   []string
+	outerTy []ltype
 }
 
 type generator struct {
@@ -252,6 +324,31 @@ type tr struct {
 	named    []string
 	fnBody   *ast.BlockStmt // body of the enclosing function (local closures: captured variables must never be reassigned)
 	err      error
+	// second round (slices.go)
+	uses     []map[string]useInfo // one frame per loop being translated: the variables / views / globals used inside
+	loops    []loopCtx
+	hoisted  map[*ast.CallExpr]string // Option-valued calls bound to a temporary in front of the current statement
+	hoisting *ast.CallExpr
+	ntmp     int
+	needOpt  bool
+	loopDone map[ast.Stmt]string // loop statement -> helper (continuations may be translated more than once)
+	globals  map[string]ltype
+	names    map[types.Object]string // Lean names of variables that share their Go name with an earlier variable
+	ndup     map[string]int
+}
+
+// nm: the Lean name of the variable an identifier denotes
+func (t *tr) nm(id *ast.Ident) string {
+	obj := t.p.info.Defs[id]
+	if obj == nil {
+		obj = t.p.info.Uses[id]
+	}
+	if obj != nil {
+		if n, ok := t.names[obj]; ok {
+			return n
+		}
+	}
+	return safe(id.Name)
 }
 
 func (t *tr) fail(n ast.Node, format string, a ...interface{}) {
@@ -342,13 +439,22 @@ func structOK(st *types.Struct, depth int) bool {
 	return true
 }
 
+// structName: the Lean name of a struct type; a type declared inside a function gets the function's name as prefix
+func (t *tr) structName(n *types.Named) string {
+	o := n.Obj()
+	if o.Pkg() != nil && o.Parent() != o.Pkg().Scope() {
+		return t.spec.lean + "_" + o.Name()
+	}
+	return o.Name()
+}
+
 func (t *tr) registerStruct(name string, st *types.Struct) {
 	if _, ok := t.structs[name]; ok {
 		return
 	}
 	for i := 0; i < st.NumFields(); i++ {
 		if n, s := namedStruct(st.Field(i).Type()); s != nil && structOK(s, 0) {
-			t.registerStruct(n.Obj().Name(), s)
+			t.registerStruct(t.structName(n), s)
 		}
 	}
 	t.structs[name] = st
@@ -377,11 +483,43 @@ func (t *tr) ltypeOf(ty types.Type) ltype {
 		if !structOK(st, 0) {
 			return ltype{c: tBad}
 		}
-		t.registerStruct(n.Obj().Name(), st)
-		return ltype{c: tStruct, sname: n.Obj().Name()}
+		t.registerStruct(t.structName(n), st)
+		return ltype{c: tStruct, sname: t.structName(n)}
 	}
 	if _, ok := ty.(*types.Pointer); ok {
 		return ltype{c: tBad}
+	}
+	switch u := ty.Underlying().(type) {
+	case *types.Slice:
+		e := t.ltypeOf(u.Elem())
+		if e.c == tBad || e.c == tTuple || e.c == tFunc {
+			return ltype{c: tBad}
+		}
+		return ltype{c: tArr, elems: []ltype{e}, alen: -1}
+	case *types.Array:
+		e := t.ltypeOf(u.Elem())
+		if e.c == tBad || e.c == tTuple || e.c == tFunc {
+			return ltype{c: tBad}
+		}
+		return ltype{c: tArr, elems: []ltype{e}, alen: int(u.Len())}
+	case *types.Signature:
+		if u.Recv() != nil || u.Variadic() || u.Results().Len() == 0 {
+			return ltype{c: tBad}
+		}
+		lt := ltype{c: tFunc}
+		for i := 0; i < u.Params().Len(); i++ {
+			e := t.ltypeOf(u.Params().At(i).Type())
+			if e.c == tBad || e.c == tFunc || e.c == tTuple {
+				return ltype{c: tBad}
+			}
+			lt.elems = append(lt.elems, e)
+		}
+		r := t.ltypeOf(u.Results())
+		if r.c == tBad || r.c == tFunc || len(lt.elems) == 0 {
+			return ltype{c: tBad}
+		}
+		lt.elems = append(lt.elems, r)
+		return lt
 	}
 	return basicType(ty)
 }
@@ -481,6 +619,7 @@ func (t *tr) view(a *absParam, path []string, ty ltype) string {
 	if old.ty.lean() != ty.lean() {
 		t.err2("%s: view %s has type %s, declared path resolves to %s", t.spec.name, name, ty.lean(), old.ty.lean())
 	}
+	t.use(name, old.ty, token.NoPos)
 	return name
 }
 
@@ -564,7 +703,18 @@ func (t *tr) expr(e ast.Expr) string {
 			t.fail(e, "local struct %s used as a value", e.Name)
 			return "?"
 		}
-		return safe(e.Name)
+		if tv.IsNil() {
+			return "#[]"
+		}
+		if v, ok := t.p.info.Uses[e].(*types.Var); ok && !v.IsField() {
+			if v.Parent() == t.p.pkg.Scope() {
+				return t.global(e, v)
+			}
+			if lt := t.ltypeOf(v.Type()); lt.c != tBad {
+				t.use(t.nm(e), lt, v.Pos())
+			}
+		}
+		return t.nm(e)
 	case *ast.SelectorExpr:
 		root, path := selPath(e)
 		if a := t.absOf(root); a != nil {
@@ -572,9 +722,12 @@ func (t *tr) expr(e ast.Expr) string {
 		}
 		if id, ok := e.X.(*ast.Ident); ok {
 			if _, isLocal := t.locals[id.Name]; isLocal {
-				return safe(id.Name) + "_" + e.Sel.Name
+				if v, ok := t.p.info.Uses[id].(*types.Var); ok {
+					t.use(t.nm(id)+"_"+e.Sel.Name, t.typeOf(e), v.Pos())
+				}
+				return t.nm(id) + "_" + e.Sel.Name
 			}
-			return safe(id.Name) + "." + safe(e.Sel.Name)
+			return t.expr(id) + "." + safe(e.Sel.Name)
 		}
 		if _, st := namedStruct(t.p.info.Types[e.X].Type); st != nil {
 			return t.expr(e.X) + "." + safe(e.Sel.Name)
@@ -585,6 +738,14 @@ func (t *tr) expr(e ast.Expr) string {
 		id, _ := e.X.(*ast.Ident)
 		a := t.absOf(id)
 		itv := t.p.info.Types[e.Index]
+		if a == nil && t.isArr(e.X) {
+			// guarded by the statement's prefix (slices.go: guard)
+			if !t.wantOpt(e) {
+				return "?"
+			}
+			arr, nat, _ := t.indexParts(e)
+			return "(" + arr + ".getD " + nat + " " + zeroOf(t.typeOf(e)) + ")"
+		}
 		if a == nil || itv.Value == nil {
 			t.fail(e, "index expression (only constant indices into an abstract array parameter)")
 			return "?"
@@ -618,7 +779,25 @@ func (t *tr) expr(e ast.Expr) string {
 		if ftv, ok := t.p.info.Types[e.Fun]; ok && ftv.IsType() && len(e.Args) == 1 {
 			return t.convert(e.Args[0], t.ltypeOf(ftv.Type), e)
 		}
+		if id, ok := e.Fun.(*ast.Ident); ok {
+			if _, isB := t.p.info.Uses[id].(*types.Builtin); isB {
+				return t.builtin(e, id.Name)
+			}
+		}
 		return t.call(e)
+	case *ast.CompositeLit:
+		return t.compositeLit(e)
+	case *ast.SliceExpr:
+		if e.Low == nil || e.High != nil || e.Max != nil || !t.isArr(e.X) {
+			t.fail(e, "slice expression (only s[a:])")
+			return "?"
+		}
+		if !t.wantOpt(e) {
+			return "?"
+		}
+		lo, _ := t.natOf(e.Low)
+		x := t.expr(e.X)
+		return "(" + x + ".extract " + lo + " " + x + ".size)"
 	default:
 		t.fail(e, "expression %T", e)
 	}
@@ -655,10 +834,22 @@ func (t *tr) call(e *ast.CallExpr) string {
 		fnObj = t.p.info.Uses[f]
 		if ci, ok := t.closures[fnObj]; ok {
 			args := append([]string{}, ci.outer...)
+			for i, o := range ci.outer {
+				if i < len(ci.outerTy) {
+					t.use(o, ci.outerTy[i], token.NoPos)
+				}
+			}
 			for _, a := range e.Args {
 				args = append(args, t.expr(a))
 			}
 			return "(" + ci.lean + " " + strings.Join(args, " ") + ")"
+		}
+		if v, ok := fnObj.(*types.Var); ok {
+			// a function value (parameter of function type)
+			if lt := t.ltypeOf(v.Type()); lt.c == tFunc {
+				t.use(t.nm(f), lt, v.Pos())
+				return "(" + t.nm(f) + " " + strings.Join(t.callArgs(e.Args), " ") + ")"
+			}
 		}
 	case *ast.SelectorExpr:
 		fnObj = t.p.info.Uses[f.Sel]
@@ -710,7 +901,10 @@ func (t *tr) call(e *ast.CallExpr) string {
 		t.fail(e, "call of %s from an earlier generated file", key)
 		return "?"
 	}
-	if callee.opt {
+	if callee.opt && t.hoisting != e {
+		if name, ok := t.hoisted[e]; ok {
+			return name
+		}
 		t.fail(e, "call of %s, which may panic / not terminate", key)
 		return "?"
 	}
@@ -719,13 +913,41 @@ func (t *tr) call(e *ast.CallExpr) string {
 		goArgs = append(goArgs, recv)
 	}
 	goArgs = append(goArgs, e.Args...)
+	var args []string
+	for _, gname := range callee.globals {
+		lt, ok := t.globals[gname]
+		if !ok {
+			t.fail(e, "call of %s, which reads the package-level variable %s: not among the globals declared for the caller", key, gname)
+			return "?"
+		}
+		t.use("g_"+gname, lt, token.NoPos)
+		args = append(args, "g_"+gname)
+	}
+	packed := ""
+	if callee.variadic && !e.Ellipsis.IsValid() {
+		// f(a, b, xs...) without `...`: the trailing arguments form the slice
+		nfix := len(callee.params) - 1
+		if len(goArgs) < nfix {
+			t.fail(e, "argument count of %s", key)
+			return "?"
+		}
+		var vs []string
+		for _, a := range goArgs[nfix:] {
+			vs = append(vs, t.expr(a))
+		}
+		packed = "#[" + strings.Join(vs, ", ") + "]"
+		goArgs = append(append([]ast.Expr{}, goArgs[:nfix]...), nil)
+	}
 	if len(goArgs) != len(callee.params) {
 		t.fail(e, "argument count of %s", key)
 		return "?"
 	}
-	var args []string
 	for i, a := range goArgs {
 		pi := callee.params[i]
+		if a == nil {
+			args = append(args, packed)
+			continue
+		}
 		if pi.skip {
 			continue
 		}
@@ -809,7 +1031,8 @@ func (t *tr) convert(arg ast.Expr, to ltype, at ast.Node) string {
 	case from.c == tNat && to.c == tInt:
 		return wrap(to, fmt.Sprintf("(Int.ofNat %s)", x))
 	case from.c == tInt && to.c == tNat:
-		break // uint(negative) wraps in Go; constants never get here (they are folded)
+		// uint(v): two's complement reinterpretation of the (sign-extended) 64-bit value
+		return fmt.Sprintf("(Int.toNat (%s %% 18446744073709551616))", x)
 	}
 	t.fail(at, "conversion %s -> %s", from.lean(), to.lean())
 	return "?"
@@ -884,29 +1107,57 @@ func (t *tr) binary(e *ast.BinaryExpr, rt ltype) string {
 		if lt.c == tBV {
 			return "(" + l + " &&& " + r + ")"
 		}
+		if lt.c == tInt {
+			return intBits(lt, l, "&&&", r)
+		}
 	case token.OR:
 		if lt.c == tBV {
 			return "(" + l + " ||| " + r + ")"
+		}
+		if lt.c == tInt {
+			return intBits(lt, l, "|||", r)
 		}
 	case token.XOR:
 		if lt.c == tBV {
 			return "(" + l + " ^^^ " + r + ")"
 		}
+		if lt.c == tInt {
+			return intBits(lt, l, "^^^", r)
+		}
 	case token.AND_NOT:
 		if lt.c == tBV {
 			return "(" + l + " &&& ~~~" + r + ")"
 		}
+		if lt.c == tInt {
+			return intBits(lt, l, "&&& ~~~", r)
+		}
 	case token.SHL:
 		if lt.c == tBV {
+			if t.spec.round2 && t.p.info.Types[e.Y].Value == nil {
+				return "(shl " + l + " " + t.shiftAmount(e.Y) + ")"
+			}
 			return "(" + l + " <<< " + t.shiftAmount(e.Y) + ")"
 		}
 	case token.SHR:
 		if lt.c == tBV {
+			if t.spec.round2 && t.p.info.Types[e.Y].Value == nil {
+				return "(shr " + l + " " + t.shiftAmount(e.Y) + ")"
+			}
 			return "(" + l + " >>> " + t.shiftAmount(e.Y) + ")"
 		}
 	}
 	t.fail(e, "operator %s on %s", e.Op, lt.lean())
 	return "?"
+}
+
+// intBits: a bit operation on a signed integer = the operation on its two's-complement representation (width of the Go
+// type; `int` / `int64`: 64 bits, the value being assumed in range like everywhere else)
+func intBits(lt ltype, l, op, r string) string {
+	w := lt.width
+	if w == 0 {
+		w = 64
+	}
+	return fmt.Sprintf("(BitVec.toInt ((BitVec.ofInt %d %s) %s (BitVec.ofInt %d %s)))", w, l, op, w, r)
 }
 
 var assignOps = map[token.Token]token.Token{
@@ -926,11 +1177,17 @@ func (t *tr) lhsName(e ast.Expr) string {
 		if t.absOf(e) != nil {
 			break
 		}
-		return safe(e.Name)
+		if t.isGlobal(e) {
+			if e.Name == t.spec.writes {
+				return t.expr(e)
+			}
+			break
+		}
+		return t.nm(e)
 	case *ast.SelectorExpr:
 		if id, ok := e.X.(*ast.Ident); ok {
 			if _, isLocal := t.locals[id.Name]; isLocal {
-				return safe(id.Name) + "_" + e.Sel.Name
+				return t.nm(id) + "_" + e.Sel.Name
 			}
 		}
 	}
@@ -981,6 +1238,15 @@ func (t *tr) stmts(ss []ast.Stmt, ret func() string) string {
 	}
 	s, tail := ss[0], ss[1:]
 	cont := func() string { return t.stmts(tail, ret) }
+	// what the statement evaluates may panic (index out of range, a panicking callee): guard first (slices.go)
+	pre := t.guard(t.stmtExprs(s)...)
+	if t.err != nil {
+		return "?"
+	}
+	return pre + t.stmt1(s, tail, ret, cont)
+}
+
+func (t *tr) stmt1(s ast.Stmt, tail []ast.Stmt, ret func() string, cont func() string) string {
 	switch s := s.(type) {
 	case *ast.ReturnStmt:
 		switch len(s.Results) {
@@ -989,29 +1255,28 @@ func (t *tr) stmts(ss []ast.Stmt, ret func() string) string {
 				t.fail(s, "bare return without named results")
 				return "?"
 			}
-			return t.retVal(tuple(t.named))
+			return t.emitReturn(tuple(t.named))
 		case 1:
 			if id, ok := s.Results[0].(*ast.Ident); ok {
 				if st, isLocal := t.locals[id.Name]; isLocal {
 					var fs []string
 					for i := 0; i < st.NumFields(); i++ {
-						fs = append(fs, fmt.Sprintf("%s := %s_%s", safe(st.Field(i).Name()), safe(id.Name), st.Field(i).Name()))
+						fs = append(fs, fmt.Sprintf("%s := %s_%s", safe(st.Field(i).Name()), t.nm(id), st.Field(i).Name()))
 					}
-					return t.retVal("{ " + strings.Join(fs, ", ") + " }")
+					return t.emitReturn("{ " + strings.Join(fs, ", ") + " }")
 				}
 			}
-			return t.retVal(t.expr(s.Results[0]))
+			return t.emitReturn(t.expr(s.Results[0]))
 		default:
 			var vs []string
 			for _, r := range s.Results {
 				vs = append(vs, t.expr(r))
 			}
-			return t.retVal(tuple(vs))
+			return t.emitReturn(tuple(vs))
 		}
 	case *ast.ExprStmt:
 		if t.isPanic(s) {
-			if !t.opt {
-				t.fail(s, "panic in a function not marked as partial")
+			if !t.wantOpt(s) {
 				return "?"
 			}
 			return "none"
@@ -1020,6 +1285,9 @@ func (t *tr) stmts(ss []ast.Stmt, ret func() string) string {
 		return "?"
 	case *ast.DeclStmt:
 		gd := s.Decl.(*ast.GenDecl)
+		if gd.Tok == token.TYPE {
+			return cont() // a local type: registered where it is used
+		}
 		if gd.Tok != token.VAR {
 			t.fail(s, "declaration")
 			return "?"
@@ -1039,7 +1307,7 @@ func (t *tr) stmts(ss []ast.Stmt, ret func() string) string {
 							t.fail(s, "local struct with a struct field")
 							return "?"
 						}
-						out += fmt.Sprintf("let %s_%s : %s := %s\n", safe(n.Name), st.Field(k).Name(), ft.lean(), zero(ft))
+						out += fmt.Sprintf("let %s_%s : %s := %s\n", t.nm(n), st.Field(k).Name(), ft.lean(), zero(ft))
 					}
 					continue
 				}
@@ -1047,11 +1315,11 @@ func (t *tr) stmts(ss []ast.Stmt, ret func() string) string {
 					t.fail(s, "variable type %s", obj.Type())
 					return "?"
 				}
-				val := zero(lt)
+				val := zeroOf(lt)
 				if i < len(vs.Values) {
 					val = t.expr(vs.Values[i])
 				}
-				out += fmt.Sprintf("let %s : %s := %s\n", safe(n.Name), lt.lean(), val)
+				out += fmt.Sprintf("let %s : %s := %s\n", t.nm(n), lt.lean(), val)
 			}
 		}
 		return out + cont()
@@ -1094,6 +1362,9 @@ func (t *tr) stmts(ss []ast.Stmt, ret func() string) string {
 			t.localClosure(id, fl)
 			return cont()
 		}
+		if line, ok := t.assignElem(s.Lhs[0], s.Tok, s.Rhs[0], s.TokPos); ok {
+			return line + cont()
+		}
 		name := t.lhsName(s.Lhs[0])
 		var val string
 		var lt ltype
@@ -1120,6 +1391,17 @@ func (t *tr) stmts(ss []ast.Stmt, ret func() string) string {
 		}
 		return fmt.Sprintf("let %s : %s := %s\n", name, lt.lean(), val) + cont()
 	case *ast.IncDecStmt:
+		if _, isIdx := s.X.(*ast.IndexExpr); isIdx {
+			op := token.ADD_ASSIGN
+			if s.Tok == token.DEC {
+				op = token.SUB_ASSIGN
+			}
+			one := &ast.BasicLit{Kind: token.INT, Value: "1", ValuePos: s.TokPos}
+			t.p.info.Types[one] = types.TypeAndValue{Type: t.p.info.Types[s.X].Type, Value: constant.MakeInt64(1)}
+			if line, ok := t.assignElem(s.X, op, one, s.TokPos); ok {
+				return line + cont()
+			}
+		}
 		name := t.lhsName(s.X)
 		lt := t.typeOf(s.X)
 		op := "+"
@@ -1166,6 +1448,18 @@ func (t *tr) stmts(ss []ast.Stmt, ret func() string) string {
 		// nested ifs, default last
 		var build func(i int) string
 		clauses := s.Body.List
+		// a `break` below would leave the switch, not the enclosing loop: marker on the loop stack (removed for the continuation)
+		t.loops = append(t.loops, loopCtx{isSwitch: true})
+		depth := len(t.loops)
+		defer func() { t.loops = t.loops[:depth-1] }()
+		after := cont
+		cont = func() string {
+			save := t.loops
+			t.loops = t.loops[:depth-1]
+			r := after()
+			t.loops = save
+			return r
+		}
 		build = func(i int) string {
 			if i == len(clauses) {
 				return cont()
@@ -1183,6 +1477,7 @@ func (t *tr) stmts(ss []ast.Stmt, ret func() string) string {
 				return t.stmts(cc.Body, cont)
 			}
 			var cs []string
+			g := t.guard(cc.List...)
 			for _, ce := range cc.List {
 				if s.Tag != nil {
 					cs = append(cs, "("+tag+" == "+t.expr(ce)+")")
@@ -1190,17 +1485,27 @@ func (t *tr) stmts(ss []ast.Stmt, ret func() string) string {
 					cs = append(cs, t.expr(ce))
 				}
 			}
-			return fmt.Sprintf("if %s then\n%s\nelse\n%s", strings.Join(cs, " || "), indent(t.stmts(cc.Body, cont)), indent(build(i+1)))
+			return g + fmt.Sprintf("if %s then\n%s\nelse\n%s", strings.Join(cs, " || "), indent(t.stmts(cc.Body, cont)), indent(build(i+1)))
 		}
 		return build(0)
 	case *ast.ForStmt:
-		if s.Init == nil && s.Post == nil {
-			if s.Cond == nil {
-				return t.foreverLoop(s)
-			}
-			return t.whileLoop(s, cont)
+		// first-round shapes keep their first-round translation (the bridges are written against it)
+		if s.Init == nil && s.Post == nil && s.Cond == nil {
+			return t.foreverLoop(s)
 		}
-		return t.forLoop(s, cont)
+		if !t.needsNew(s.Body) && !t.opt {
+			if s.Init == nil && s.Post == nil {
+				return t.whileLoop(s, cont)
+			}
+			if t.oldForShape(s) {
+				return t.forLoop(s, cont)
+			}
+		}
+		return t.newLoop(s, cont)
+	case *ast.RangeStmt:
+		return t.newLoop(s, cont)
+	case *ast.BranchStmt:
+		return t.branch(s)
 	case *ast.BlockStmt:
 		return t.stmts(append(append([]ast.Stmt{}, s.List...), tail...), ret)
 	}
@@ -1270,11 +1575,11 @@ func (c identCollector) Visit(n ast.Node) ast.Visitor {
 				return nil
 			}
 			if _, isLocal := c.t.locals[id.Name]; isLocal {
-				c.set[safe(id.Name)+"_"+n.Sel.Name] = c.t.typeOf(n)
+				c.set[c.t.nm(id)+"_"+n.Sel.Name] = c.t.typeOf(n)
 				return nil
 			}
 			if obj, ok := c.t.p.info.Uses[id].(*types.Var); ok {
-				c.set[safe(id.Name)] = c.t.ltypeOf(obj.Type())
+				c.set[c.t.nm(id)] = c.t.ltypeOf(obj.Type())
 			}
 			return nil
 		}
@@ -1287,7 +1592,7 @@ func (c identCollector) Visit(n ast.Node) ast.Visitor {
 			if c.from != token.NoPos && obj.Pos() >= c.from && obj.Pos() < c.to {
 				return c
 			}
-			c.set[safe(n.Name)] = c.t.ltypeOf(obj.Type())
+			c.set[c.t.nm(n)] = c.t.ltypeOf(obj.Type())
 		}
 	}
 	return c
@@ -1318,7 +1623,7 @@ func (t *tr) forLoop(s *ast.ForStmt, cont func() string) string {
 	}
 	state := map[string]ltype{}
 	t.assigned(s.Body.List, state)
-	if _, bad := state[safe(iv.Name)]; bad {
+	if _, bad := state[t.nm(iv)]; bad {
 		t.fail(s, "loop variable %s is modified in the body", iv.Name)
 		return "?"
 	}
@@ -1332,7 +1637,7 @@ func (t *tr) forLoop(s *ast.ForStmt, cont func() string) string {
 	ast.Walk(identCollector{t: t, set: free}, s.Body)
 	ast.Walk(identCollector{t: t, set: free}, cond.Y)
 	ast.Walk(identCollector{t: t, set: free}, init.Rhs[0])
-	delete(free, safe(iv.Name))
+	delete(free, t.nm(iv))
 	for _, v := range svars {
 		delete(free, v)
 	}
@@ -1365,7 +1670,7 @@ func (t *tr) forLoop(s *ast.ForStmt, cont func() string) string {
 	stType := strings.Join(stTypes, " × ")
 	body := t.stmts(s.Body.List, func() string { return tuple(stNames) })
 	h := fmt.Sprintf("def %s %s (hi : Nat) : Nat → %s → %s\n  | 0, st => st\n  | fuel+1, st =>\n    let %s := st\n    let %s : Nat := hi - (fuel+1)\n    let st' : %s :=\n%s\n    %s %s hi fuel st'\n",
-		name, strings.Join(params, " "), stType, stType, tuple(stNames), safe(iv.Name), stType, indent(indent(indent(body))), name, strings.Join(args, " "))
+		name, strings.Join(params, " "), stType, stType, tuple(stNames), t.nm(iv), stType, indent(indent(indent(body))), name, strings.Join(args, " "))
 	t.helpers = append(t.helpers, h)
 	return fmt.Sprintf("let %s := %s %s (%s) ((%s) - (%s)) %s\n", tuple(stNames), name, strings.Join(args, " "), b, b, a, tuple(stNames)) + cont()
 }
@@ -1510,7 +1815,8 @@ func (t *tr) localClosure(id *ast.Ident, fl *ast.FuncLit) {
 		return
 	}
 	ct := &tr{g: t.g, p: t.p, spec: t.spec, group: t.group, structs: t.structs, locals: map[string]*types.Struct{},
-		abs: map[types.Object]*absParam{}, closures: t.closures, fnBody: nil}
+		abs: map[types.Object]*absParam{}, closures: t.closures, fnBody: nil,
+		hoisted: map[*ast.CallExpr]string{}, loopDone: map[ast.Stmt]string{}, globals: map[string]ltype{}, names: t.names, ndup: t.ndup}
 	ct.spec.lean = t.spec.lean + "_" + id.Name
 	if panics, forever := ct.scanShape(fl.Body); panics || forever {
 		t.fail(fl, "closure with panic / unbounded loop")
@@ -1547,7 +1853,7 @@ func (t *tr) localClosure(id *ast.Ident, fl *ast.FuncLit) {
 			t.fail(x, "captured variable %s of type %s", x.Name, obj.Type())
 			return true
 		}
-		captured[safe(x.Name)] = lt
+		captured[t.nm(x)] = lt
 		capObj[obj] = true
 		return true
 	})
@@ -1601,9 +1907,11 @@ func (t *tr) localClosure(id *ast.Ident, fl *ast.FuncLit) {
 		t.sorder = append(t.sorder, n)
 	}
 	var capParams, capArgs []string
+	var capTys []ltype
 	for _, k := range sortedKeys(captured) {
 		capParams = append(capParams, fmt.Sprintf("(%s : %s)", k, captured[k].lean()))
 		capArgs = append(capArgs, k)
+		capTys = append(capTys, captured[k])
 	}
 	own, _ := ct.paramList(ps)
 	lean := t.spec.lean + "_" + id.Name
@@ -1614,7 +1922,7 @@ func (t *tr) localClosure(id *ast.Ident, fl *ast.FuncLit) {
 	sig := strings.TrimSpace(strings.Join(capParams, " ") + " " + own)
 	h += fmt.Sprintf("def %s %s : %s :=\n%s\n", lean, sig, rt.lean(), indent(body))
 	t.helpers = append(t.helpers, h)
-	t.closures[t.p.info.Defs[id]] = closureInfo{lean: lean, outer: capArgs}
+	t.closures[t.p.info.Defs[id]] = closureInfo{lean: lean, outer: capArgs, outerTy: capTys}
 }
 
 func findFunc(p *pkgInfo, spec fnSpec) *ast.FuncDecl {
@@ -1676,14 +1984,25 @@ func (t *tr) checkNames(root ast.Node, seen map[string]types.Object) {
 		if !ok || obj == nil {
 			return true
 		}
-		if _, isVar := obj.(*types.Var); !isVar {
+		if v, isVar := obj.(*types.Var); !isVar || v.IsField() {
 			return true
 		}
 		if t.abs[obj] != nil {
 			return true
 		}
 		if old, dup := seen[id.Name]; dup && old != obj {
-			t.fail(id, "two variables named %s (shadowing is outside the subset)", id.Name)
+			// a second variable of the same name gets a Lean name of its own (every Go variable = one Lean name, so the
+			// continuation-passing translation cannot let one capture the other); flattened local structs are keyed by
+			// their Go name and stay unique
+			_, st := namedStruct(obj.Type())
+			if _, isPtr := obj.Type().(*types.Pointer); st != nil && !isPtr {
+				t.fail(id, "two variables named %s, one of them a struct value", id.Name)
+			}
+			if _, done := t.names[obj]; !done {
+				t.ndup[id.Name]++
+				t.names[obj] = fmt.Sprintf("%s_%d", id.Name, t.ndup[id.Name])
+			}
+			return true
 		}
 		seen[id.Name] = obj
 		if strings.Contains(id.Name, "_") {
@@ -1719,7 +2038,7 @@ func (t *tr) signature(recv *ast.FieldList, ft *ast.FuncType) (ps []sigParam, rt
 			}
 			t.fail(n, "parameter type %s", obj.Type())
 		}
-		ps = append(ps, sigParam{obj: obj, name: safe(n.Name), ty: lt})
+		ps = append(ps, sigParam{obj: obj, name: t.nm(n), ty: lt})
 	}
 	lists := []*ast.FieldList{}
 	if recv != nil {
@@ -1741,6 +2060,10 @@ func (t *tr) signature(recv *ast.FieldList, ft *ast.FuncType) (ps []sigParam, rt
 		}
 	}
 	if ft.Results == nil || len(ft.Results.List) == 0 {
+		if lt, ok := t.globals[t.spec.writes]; ok && t.spec.writes != "" {
+			t.named = []string{"g_" + t.spec.writes}
+			return ps, lt, ""
+		}
 		t.fail(ft, "no result")
 		return
 	}
@@ -1759,8 +2082,8 @@ func (t *tr) signature(recv *ast.FieldList, ft *ast.FuncType) (ps []sigParam, rt
 			rts = append(rts, lt)
 		}
 		for _, nm := range fl.Names {
-			t.named = append(t.named, safe(nm.Name))
-			pre += fmt.Sprintf("let %s : %s := %s\n", safe(nm.Name), lt.lean(), zero(lt))
+			t.named = append(t.named, t.nm(nm))
+			pre += fmt.Sprintf("let %s : %s := %s\n", t.nm(nm), lt.lean(), zero(lt))
 		}
 	}
 	if len(t.named) != 0 && len(t.named) != len(rts) {
@@ -1810,24 +2133,46 @@ func resultType(rt ltype, opt bool) string {
 	return rt.lean()
 }
 
-// function translates one plain whitelisted function.
+// function translates one plain whitelisted function.  A function that turns out to need an Option result (an index
+// expression, a panicking callee ...) is translated a second time with `opt` set.
 func (g *generator) function(p *pkgInfo, spec fnSpec, group int, fd *ast.FuncDecl) (string, *tr) {
-	t := &tr{g: g, p: p, spec: spec, group: group, structs: map[string]*types.Struct{}, locals: map[string]*types.Struct{},
-		abs: map[types.Object]*absParam{}, closures: map[types.Object]closureInfo{}}
+	def, t := g.function1(p, spec, group, fd, false)
+	if t.err != nil && t.needOpt && !t.opt {
+		def, t = g.function1(p, spec, group, fd, true)
+	}
+	return def, t
+}
+
+func newTr(g *generator, p *pkgInfo, spec fnSpec, group int) *tr {
+	return &tr{g: g, p: p, spec: spec, group: group, structs: map[string]*types.Struct{}, locals: map[string]*types.Struct{},
+		abs: map[types.Object]*absParam{}, closures: map[types.Object]closureInfo{},
+		hoisted: map[*ast.CallExpr]string{}, loopDone: map[ast.Stmt]string{}, globals: map[string]ltype{},
+		names: map[types.Object]string{}, ndup: map[string]int{}}
+}
+
+func (g *generator) function1(p *pkgInfo, spec fnSpec, group int, fd *ast.FuncDecl, forceOpt bool) (string, *tr) {
+	t := newTr(g, p, spec, group)
 	t.fnBody = fd.Body
 	panics, forever := t.scanShape(fd.Body)
-	if panics && forever {
+	if panics && forever && !forceOpt {
 		t.fail(fd, "panic and unbounded loop in one function")
 	}
-	t.opt = panics || forever
+	t.opt = panics || forever || forceOpt
+	t.declareGlobals()
 	ps, rt, pre := t.signature(fd.Recv, fd.Type)
 	seen := map[string]types.Object{}
 	if t.err == nil {
 		t.checkNames(fd, seen)
 	}
+	if t.err == nil {
+		t.checkAliasing(fd)
+	}
 	body := ""
 	if t.err == nil {
 		body = pre + t.stmts(fd.Body.List, func() string {
+			if t.spec.writes != "" && fd.Type.Results == nil {
+				return t.retVal(tuple(t.named))
+			}
 			t.fail(fd, "control reaches the end of the function without return")
 			return "?"
 		})
@@ -1836,18 +2181,24 @@ func (g *generator) function(p *pkgInfo, spec fnSpec, group int, fd *ast.FuncDec
 		return "", t
 	}
 	params, infos := t.paramList(ps)
-	for _, pi := range infos {
-		for _, v := range pi.views {
-			if _, clash := seen[strings.Join(v.path, "_")]; clash {
-				_ = clash // view names always carry the parameter prefix and an underscore; locals never do (checkNames)
-			}
-		}
+	var gparams []string
+	for _, n := range t.globalNames() {
+		gparams = append(gparams, fmt.Sprintf("(g_%s : %s)", n, t.globals[n].lean()))
 	}
-	g.done[specKey(spec)] = &fnInfo{spec: spec, group: group, opt: t.opt, params: infos}
+	if len(gparams) > 0 {
+		params = strings.TrimSpace(strings.Join(gparams, " ") + " " + params)
+	}
+	variadic := false
+	if sig, ok := p.info.Defs[fd.Name].Type().(*types.Signature); ok {
+		variadic = sig.Variadic()
+	}
+	g.done[specKey(spec)] = &fnInfo{spec: spec, group: group, opt: t.opt, params: infos, globals: t.globalNames(), variadic: variadic}
 	pos := p.fset.Position(fd.Pos())
 	def := fmt.Sprintf("/-- %s/%s:%d `%s` -/\n", spec.dir, spec.file, pos.Line, spec.name)
 	for _, h := range t.helpers {
-		def += strings.ReplaceAll(h, "Option RESULT", "Option ("+rt.lean()+")") + "\n"
+		h = strings.ReplaceAll(h, "Option RESULT", "Option ("+rt.lean()+")")
+		h = strings.ReplaceAll(h, "(RESULT)", "("+rt.lean()+")")
+		def += h + "\n"
 	}
 	def += fmt.Sprintf("def %s %s : %s :=\n%s\n", spec.lean, params, resultType(rt, t.opt), indent(body))
 	return def, t
@@ -1855,8 +2206,7 @@ func (g *generator) function(p *pkgInfo, spec fnSpec, group int, fd *ast.FuncDec
 
 // closureTable translates `func f(outer..) []T { a := func(..)..{..}; ...; return []T{a, b, ...} }`.
 func (g *generator) closureTable(p *pkgInfo, spec fnSpec, group int, fd *ast.FuncDecl) (string, *tr) {
-	t := &tr{g: g, p: p, spec: spec, group: group, structs: map[string]*types.Struct{}, locals: map[string]*types.Struct{},
-		abs: map[types.Object]*absParam{}, closures: map[types.Object]closureInfo{}}
+	t := newTr(g, p, spec, group)
 	var outerPs []sigParam
 	for _, fl := range fd.Type.Params.List {
 		for _, n := range fl.Names {
@@ -1865,7 +2215,7 @@ func (g *generator) closureTable(p *pkgInfo, spec fnSpec, group int, fd *ast.Fun
 			if lt.c == tBad || lt.c == tStruct {
 				t.fail(n, "closure table parameter type %s", obj.Type())
 			}
-			outerPs = append(outerPs, sigParam{obj: obj, name: safe(n.Name), ty: lt})
+			outerPs = append(outerPs, sigParam{obj: obj, name: t.nm(n), ty: lt})
 		}
 	}
 	if fd.Recv != nil || len(fd.Body.List) < 2 {
@@ -1901,7 +2251,8 @@ func (g *generator) closureTable(p *pkgInfo, spec fnSpec, group int, fd *ast.Fun
 			return "", t
 		}
 		ct := &tr{g: g, p: p, spec: spec, group: group, structs: t.structs, locals: map[string]*types.Struct{},
-			abs: map[types.Object]*absParam{}, closures: t.closures}
+			abs: map[types.Object]*absParam{}, closures: t.closures,
+			hoisted: map[*ast.CallExpr]string{}, loopDone: map[ast.Stmt]string{}, globals: map[string]ltype{}, names: t.names, ndup: t.ndup}
 		ct.spec.lean = spec.lean + "_" + id.Name
 		panics, forever := ct.scanShape(fl.Body)
 		if panics || forever {
